@@ -535,7 +535,20 @@ impl C08 {
                 if status != "ok" {
                     res.tags.push(format!("hist:{status}"));
                 }
-                let out = self.history_out(w, t, status, res, li);
+                let out = self.history_out(w, t, status.clone(), res, li);
+                // a write either fails without effect or reports ok: `M=` lists the attached versions that exist now and did
+                // not before the op (observed by listing + opening them)
+                let published = out.split(' ').find_map(|x| x.strip_prefix("M=")).map(|m| m.split(';').any(|d| d.starts_with('v'))).unwrap_or(false);
+                if published {
+                    res.tags.push(format!("write_published:{}", if status == "ok" { "ok" } else { "not_ok" }));
+                }
+                if published && status.starts_with("err_") {
+                    res.failures.push(OracleFailure {
+                        what: format!("`{op}` returned an error ({status}) although the version it wrote is published: {out}"),
+                        key: Some("auto_cleanup_error_fails_committed_write".into()),
+                        line: li,
+                    });
+                }
                 if !out.ends_with("R=-") {
                     res.tags.push("auto_removed".into());
                     res.tags.push("removed_some".into());
